@@ -82,6 +82,10 @@ func readOptionDocs(p *Program) []optDoc {
 						k, _ := strconv.ParseInt(m[1], 10, 64)
 						od.treated = &k
 					}
+					if !od.hasRange && od.treated != nil {
+						// "negative values are treated as K" without a written range: K is the default
+						od.hasRange, od.lo, od.hi, od.d = true, 0, -1, *od.treated
+					}
 					od.noEffect = strings.Contains(flat, "has no effect")
 					od.lossyOnly = strings.Contains(flat, "lossy encoding only")
 					out = append(out, od)
@@ -96,6 +100,7 @@ func readOptionDocs(p *Program) []optDoc {
 func runC20(c *Ctx) {
 	c.Rule("D1 documented defaults: for every EncoderOptions field whose documentation gives a range and a default, class evaluation (negative / zero / positive) of the code that turns the option into the codec's setting (resolve* helpers, guarded copies over lossy.DefaultConfig) yields the documented default for every class outside the documented range and the option's own value inside it; 'treated as K' equals the documented default")
 	c.Rule("V1 non-finite: class evaluation of validateConfig with each float option in {NaN, +Inf, -Inf} reaches no successful return")
+	c.Rule("V2 above range: for every integer option with a documented range (lo-hi), class evaluation of validateConfig with the option set to hi+1 reaches no successful return")
 	c.Rule("N1: a field documented as having no effect is read only by validateConfig; a field documented 'lossy encoding only' is not read by any function reachable from the lossless paths")
 	c.Rule("P1 nil options: exported functions dereference their *EncoderOptions parameter only through a value that is DefaultOptions() when the parameter is nil")
 	c.NotCovered("byte-identical output of equivalent option sets beyond the equality of the settings handed to the codecs; panics inside the codecs for extreme images; upper-range validation values; presets")
@@ -294,6 +299,30 @@ func c20Defaults(c *Ctx, p *Program, docs []optDoc) {
 							effs[i] = effVal{kind: "unknown"}
 						}
 					}
+				case *ssa.BinOp:
+					// a sign guard (comparison with 0) is how the sentinel is recognised; any other direct
+					// comparison or arithmetic uses the raw value although negative means "default"
+					if rejected(p, od.name, sgNeg) {
+						continue
+					}
+					isZero := func(v ssa.Value) bool {
+						k, ok := v.(*ssa.Const)
+						if !ok || k.Value == nil {
+							return false
+						}
+						kv, ok := constantInt(k)
+						return ok && kv == 0
+					}
+					guard := false
+					switch x.Op {
+					case token.GEQ, token.GTR, token.LSS, token.LEQ:
+						guard = isZero(x.X) || isZero(x.Y)
+					}
+					n++
+					key := fmt.Sprintf("%s:%s:raw-use", od.name, fn.Name())
+					c.Check(guard, "D1-doc-default", key, p.Pos(x.Pos()), "the option is only tested for its sign here",
+						fmt.Sprintf("%s is documented as (%d-%d, default %d; negative means default) but %s uses the raw value in '%s' without resolving the sentinel: a negative value takes whatever branch the raw number selects instead of behaving like %d", od.name, od.lo, od.hi, od.d, fn.Name(), x.Op.String(), od.d))
+					continue
 				default:
 					continue
 				}
@@ -310,7 +339,7 @@ func c20Defaults(c *Ctx, p *Program, docs []optDoc) {
 					case outside:
 						okv := effs[i].kind == "const" && effs[i].c == od.d
 						c.Check(okv, "D1-doc-default", key, pos, fmt.Sprintf("a %s %s gives the documented default %d", cl.name, od.name, od.d),
-							fmt.Sprintf("%s is documented as (%d-%d, default %d) but a %s value becomes %s at %s: the sentinel does not mean the documented default", od.name, od.lo, od.hi, od.d, cl.name, effs[i], site))
+							fmt.Sprintf("%s is documented with default %d (negative values mean the default) but a %s value becomes %s at %s: the sentinel does not mean the documented default", od.name, od.d, cl.name, effs[i], site))
 					default:
 						okv := effs[i].kind == "opt" || (effs[i].kind == "const" && cl.sign == sgZero && effs[i].c == 0)
 						c.Check(okv, "D1-doc-default", key, pos, fmt.Sprintf("a %s %s inside the documented range is used as given", cl.name, od.name),
@@ -466,6 +495,35 @@ func c20NonFinite(c *Ctx, p *Program, docs []optDoc) {
 		}
 	}
 	c.Floor("V1-non-finite", n, 6)
+	// V2: the first value above the documented range of an integer option is rejected
+	m := 0
+	for _, od := range docs {
+		if !od.hasRange {
+			continue
+		}
+		bt, ok := od.typ.Underlying().(*types.Basic)
+		if !ok || bt.Info()&types.IsInteger == 0 {
+			continue
+		}
+		if od.hi < 0 {
+			continue // no upper limit written in the documentation
+		}
+		m++
+		e := newCE(p)
+		a := avIntConst(od.hi + 1)
+		e.fields["EncoderOptions."+od.name] = a
+		rets, complete := e.run(vc)
+		key := fmt.Sprintf("%s=%d", od.name, od.hi+1)
+		switch {
+		case !complete:
+			c.Fail("V2-above-range", key, p.Pos(vc.Pos()), "validateConfig could not be evaluated completely")
+		case len(rets) > 0:
+			c.Fail("V2-above-range", key, p.Pos(vc.Pos()), fmt.Sprintf("%s is documented as (%d-%d) but validateConfig can return without error for %d: the out-of-range value reaches the encoder", od.name, od.lo, od.hi, od.hi+1))
+		default:
+			c.Pass("V2-above-range", key, p.Pos(vc.Pos()), "rejected by validateConfig")
+		}
+	}
+	c.Floor("V2-above-range", m, 8)
 }
 
 // ---- N1 ----
